@@ -257,6 +257,134 @@ example : builtin 6 {} fr0 "and" [boom, disp7] false {} = (.val (.err "boom"), {
 example : builtin 6 {} fr0 "if" [.bool true, .int 1, disp7] false {} = (.val (.int 1), {}) :=
   (((short_circuit_skips 5 {} fr0 (.bool true) (.int 1) disp7 false {} {}).1 rfl).1).trans rfl
 
+/-! ## 3. A violation cannot be caught
+
+`Conf` (XrayProofs/CoreErrors.lean) is an invocation of one of the ten functions of the evaluator,
+`c.viol cfg k s` says that it ends in the violation `k` with state `s` (`(.viol k, s)`, or
+`(.error (.viol k), s)` for the three list-like functions), `Sub cfg c' c` lists every call site of
+the model — `c` performs the sub-evaluation `c'` — each with the path condition under which it is
+reached (39 call sites), and `Within` is the reflexive-transitive closure of `Sub`. -/
+
+/-- One step, for every call site of every function of the evaluator: if a sub-evaluation that an
+invocation performs ends in a violation, the invocation ends in the same violation with the same
+state.  Nothing that would have come after it is evaluated (the state is the sub-evaluation's). -/
+theorem violation_absorbing_step (cfg : Cfg) (c' c : Conf) (k : Viol) (s : St)
+    (hsub : Sub cfg c' c) (hv : c'.viol cfg k s) : c.viol cfg k s :=
+  hsub.viol hv
+
+/-- A violation is absorbing along the whole dynamic extent: if an evaluation `c'` that happens
+anywhere inside the evaluation `c` (under any nesting of calls of natives and user functions,
+handlers, constructors, declarations, closure creations, trampoline iterations) ends in the
+violation `k`, then `c` ends in the violation `k`, in the same state. -/
+theorem violation_uncatchable (cfg : Cfg) (c' c : Conf) (k : Viol) (s : St)
+    (hin : Within cfg c' c) (hv : c'.viol cfg k s) : c.viol cfg k s :=
+  hin.viol hv
+
+/-- The two error handlers do not see a violation: `if_error(a, b)` and `is_error(a)` with `a`
+ending in a violation end in that violation (state unchanged, `b` not evaluated) — at the level of
+the natives and of the call expressions. -/
+theorem violation_uncatchable_handlers (n : Nat) (cfg : Cfg) (fr : Frame) (a b : Expr) (tail : Bool)
+    (st st' : St) (k : Viol) (h : eval n cfg fr a false st = (.viol k, st')) :
+    builtin (n + 1) cfg fr "if_error" [a, b] tail st = (.viol k, st') ∧
+    builtin (n + 1) cfg fr "is_error" [a] tail st = (.viol k, st') ∧
+    (fr.get "if_error" = none → eval (n + 3) cfg fr (.call "if_error" [a, b]) tail st = (.viol k, st')) ∧
+    (fr.get "is_error" = none → eval (n + 3) cfg fr (.call "is_error" [a]) tail st = (.viol k, st')) := by
+  have h1 : builtin (n + 1) cfg fr "if_error" [a, b] tail st = (.viol k, st') := by simp [builtin, h]
+  have h2 : builtin (n + 1) cfg fr "is_error" [a] tail st = (.viol k, st') := by simp [builtin, h]
+  refine ⟨h1, h2, ?_, ?_⟩
+  · intro hf; rw [eval_call_unbound hf]; exact h1
+  · intro hf; rw [eval_call_unbound hf]; exact h2
+
+/-- A violation in an item/argument position (after a prefix of values): the list evaluation, the
+tuple and array constructors, every strict native, and the call of a user function value all end in
+that violation, in the state where it happened; the later items are not evaluated and the callee
+does not run. -/
+theorem violation_in_arguments (cfg : Cfg) (fr : Frame) (n : Nat) (pre post : List Expr) (e : Expr)
+    (st st1 st2 : St) (vs : List Val) (k : Viol) (tail : Bool)
+    (hpre : SeqVals cfg fr (n + 1 + pre.length) pre st vs st1)
+    (he : eval n cfg fr e false st1 = (.viol k, st2)) :
+    evalList (n + 1 + pre.length) cfg fr (pre ++ e :: post) st = (.error (.viol k), st2) ∧
+    eval (n + 1 + pre.length + 1) cfg fr (.tup (pre ++ e :: post)) tail st = (.viol k, st2) ∧
+    eval (n + 1 + pre.length + 1) cfg fr (.arr (pre ++ e :: post)) tail st = (.viol k, st2) ∧
+    (∀ f, isStrictPrim f = true →
+      builtin (n + 1 + pre.length + 1) cfg fr f (pre ++ e :: post) tail st = (.viol k, st2)) ∧
+    (∀ fn dflts env,
+      callVal (n + 1 + pre.length + 1) cfg fr (.clos fn dflts env) (pre ++ e :: post) tail st = (.viol k, st2)) := by
+  have hl : evalList (n + 1 + pre.length) cfg fr (pre ++ e :: post) st = (.error (.viol k), st2) :=
+    (within_list_item e post hpre).viol (k := k) (s := st2) he
+  refine ⟨hl, ?_, ?_, ?_, ?_⟩
+  · simp [eval, hl]
+  · simp [eval, hl]
+  · intro f hf
+    exact (Sub.strictArgs _ fr f _ tail st hf).viol (k := k) (s := st2) hl
+  · intro fn dflts env
+    simp [callVal, hl]
+
+/-- The host receives it: if any evaluation inside the dynamic extent of the program ends in the
+violation `k`, then `runProgram` returns `.error (.viol k)` — not a frame of bindings — with the
+state (output written, calls counted) at the moment of the violation. -/
+theorem violation_reaches_host (fuel : Nat) (cfg : Cfg) (ds : List Decl) (c : Conf) (k : Viol) (s : St)
+    (hin : Within cfg c (.evalDecls fuel { env := [], self := none, height := 0 } ds {}))
+    (hv : c.viol cfg k s) :
+    runProgram fuel cfg ds = (.error (.viol k), s) :=
+  hin.viol hv
+
+/-- In particular for a top-level declaration: if the declarations `pre` succeed and the next
+declaration's right-hand side (or closure creation) ends in a violation, the program ends in that
+violation; the remaining declarations `post` are not evaluated. -/
+theorem toplevel_violation_stops (n : Nat) (cfg : Cfg) (pre post : List Decl) (fr1 : Frame) (st1 s : St) (k : Viol)
+    (hpre : SeqDecls cfg (n + 1 + pre.length) { env := [], self := none, height := 0 } pre {} fr1 st1) :
+    (∀ x e, eval n cfg fr1 e false st1 = (.viol k, s) →
+      runProgram (n + 1 + pre.length) cfg (pre ++ .letD x e :: post) = (.error (.viol k), s)) ∧
+    (∀ f, mkClos n cfg fr1 f st1 = (.viol k, s) →
+      runProgram (n + 1 + pre.length) cfg (pre ++ .fnD f :: post) = (.error (.viol k), s)) := by
+  constructor
+  · intro x e he
+    unfold runProgram
+    rw [evalDecls_append _ hpre]
+    simp [evalDecls, he]
+  · intro f hf
+    unfold runProgram
+    rw [evalDecls_append _ hpre]
+    simp [evalDecls, hf]
+
+/-! ### the hypotheses are satisfiable: a call limit of 1 trips on the first user call -/
+
+def cfg1 : Cfg := { callLimit := some 1 }
+/-- `f(1, 2)` -/
+def callF : Expr := .call "f" [.int 1, .int 2]
+
+/-- the call itself is the violation … -/
+example : eval 8 cfg1 frF callF false {} = (.viol .calls, { calls := 1 }) := rfl
+/-- … so `if_error(f(1, 2), 0)` and `is_error(f(1, 2))` are that violation, not `0` / `false` -/
+example : eval 11 cfg1 frF (.call "if_error" [callF, .int 0]) false {} = (.viol .calls, { calls := 1 }) :=
+  (violation_uncatchable_handlers 8 cfg1 frF callF (.int 0) false {} _ .calls rfl).2.2.1 rfl
+example : eval 11 cfg1 frF (.call "is_error" [callF]) false {} = (.viol .calls, { calls := 1 }) :=
+  (violation_uncatchable_handlers 8 cfg1 frF callF (.int 0) false {} _ .calls rfl).2.2.2 rfl
+
+/-- the dynamic extent: the counter check of `callUser` happens inside the evaluation of `f(1, 2)` -/
+example : Within cfg1 (.callUser 5 0 (.clos fSub [] []) [.int 1, .int 2] {}) (.eval 8 frF callF false {}) :=
+  .step (.step (.step (.refl _)
+    (Sub.callBody 5 frF fSub [] [] _ false {} _ _ rfl))
+    (Sub.boundCall 6 frF "f" _ false {} _ rfl))
+    (Sub.namedCall 7 frF "f" _ false {} (by intro sn sc h; cases h))
+
+/-- `[1, if_error(f(1, 2), 0), display(7)]`: the violation inside the second item is the outcome of
+the array construction; nothing is displayed -/
+example : eval 14 cfg1 frF (.arr [.int 1, .call "if_error" [callF, .int 0], disp7]) false {}
+    = (.viol .calls, { calls := 1 }) :=
+  (violation_in_arguments cfg1 frF 11 [.int 1] [disp7] _ {} {} _ [.int 1] .calls false
+    (.cons rfl rfl (.nil _ _)) rfl).2.2.1
+
+/-- the program `fn f(x, unused) { x - 7 }  let a = 1;  let b = if_error(f(1, 2), 0);  let c = display(7);`
+under a call limit of 1: the host receives the violation, `c` is not evaluated -/
+example : runProgram 14 cfg1 [.fnD fSub, .letD "a" (.int 1), .letD "b" (.call "if_error" [callF, .int 0]),
+      .letD "c" disp7] = (.error (.viol .calls), { calls := 1 }) :=
+  (toplevel_violation_stops 11 cfg1 [.fnD fSub, .letD "a" (.int 1)] [.letD "c" disp7]
+    { env := [("a", .int 1), ("f", .clos fSub [] [])], self := none, height := 0 } {} _ .calls
+    (.fnD rfl rfl (.letD rfl (.nil _ _ _)))).1 "b" _ rfl
+
+
 /-! ## 4. `display` -/
 
 /-- `display` of an error value writes nothing and returns the error; `display` of a printable value
